@@ -5,7 +5,7 @@ import sys
 ACTS = [("submit","m o se"),("done","q"),("loadDone","r ok"),("timerFire","r"),("explicitUnload","m"),("setPing","r ok"),
  ("pTake",""),("pDrainUnloaded",""),("pLookup","fit"),("pNeedsReload",""),("pUse",""),("pExpire",""),("pWaitUnload",""),
  ("pLoad","ok"),("cTakeFinished",""),("cFin",""),("cTakeExpired",""),("cExp",""),("cVram",""),("requeue","r"),
- ("delayedRequeue","q"),("finishSend","q"),("timerCb","r")]
+ ("delayedRequeue","q"),("finishSend","q"),("timerCb","r"),("unloadRun","r")]
 inv, n = sys.argv[1], int(sys.argv[2])
 variant = sys.argv[3] if len(sys.argv) > 3 and sys.argv[3] != "-" else None
 hints = sys.argv[4] if len(sys.argv) > 4 and sys.argv[4] != "-" else ""
@@ -17,7 +17,8 @@ vv = "v" if not variant else variant
 gr = f"grind [{hints}]" if hints else "grind"
 vsimp = ", Variant.good" if variant else ""
 manual = "--manual-cfin" in sys.argv
-if not manual:
+steponly = "--step-only" in sys.argv
+if not manual and not steponly:
   print(f"""theorem {inv.lower()}_releaseHold {{s : State}} {{q : ReqId}} {extra} (h : {inv} s) : {inv} (releaseHold s q) := by
   obtain ⟨{hs}⟩ := h
 {pre}  unfold releaseHold
@@ -32,6 +33,8 @@ theorem {inv.lower()}_finishOn {{s : State}} {{r : Rid}} {extra} (h : {inv} s) :
   (repeat' split) <;> (constructor <;> (sched_unfold; {gr}))
 """)
 for a, ps in ACTS:
+    if steponly:
+        break
     if a == "cFin" and "--manual-cfin" in sys.argv:
         continue
     if a == "cFin":
